@@ -42,7 +42,7 @@ MANIFEST = {
     },
     "C03": {
         "text": "partial_cmp, ==, <, <=, >, >=, != (same- and cross-representation), is_bot, is_top and Default of the real code are recorded for all values/pairs and compared by TLC with Cmp/IsBot/IsTop of the model; TLC checks on the model that Leq is a partial order, agrees with Join, and that IsBot/IsTop are exactly least/greatest.",
-        "note": "KNOWN FINDING withtop/is_top/some-inner-top and uf/find/rho-cycle (comparison does not return). Set/map/vec/union-find carriers are taken as unbounded (no greatest element).",
+        "note": "KNOWN FINDING uf/find/rho-cycle (comparison does not return). WithTop::is_top was fixed upstream of this check (is_top <=> None); a regression is reported as withtop/is_top/some-inner-top. Set/map/vec/union-find carriers are taken as unbounded (no greatest element).",
         "technique": _T,
         "design_ref": "DESIGN.md §6.1, §9 item 4",
     },
@@ -255,9 +255,12 @@ def _body(trace):
 
 
 def _uf_cfg(name, items, modes, wf, mal, emit):
-    return _cfg(name, "SPECIFICATION Spec\nCONSTANTS\n  Items = {%s}\n  MODES = {%s}\n  MaxOpsWf = %d\n  MaxOpsMal = %d\n  EMIT = %s\n"
-                "INVARIANTS ModelOK RhoExact NoUnwrapPanic Bounded Emit\nCHECK_DEADLOCK FALSE\n"
-                % (",".join(str(i) for i in range(items)), modes, wf, mal, _tf(emit)))
+    # VERIF_UF_FIXED=1: model the candidate repair of find (Brent cycle detection) instead of the
+    # shipped loop -- only for evaluating that repair against a patched sandbox tree
+    fixed = os.environ.get("VERIF_UF_FIXED") == "1"
+    return _cfg(name, "SPECIFICATION Spec\nCONSTANTS\n  Items = {%s}\n  MODES = {%s}\n  MaxOpsWf = %d\n  MaxOpsMal = %d\n  EMIT = %s\n  FIXED = %s\n"
+                "INVARIANTS ModelOK RhoExact NoUnwrapPanic Bounded FixedTerminates Emit\nCHECK_DEADLOCK FALSE\n"
+                % (",".join(str(i) for i in range(items)), modes, wf, mal, _tf(emit), _tf(fixed)))
 
 
 def _job_uf(exe, d, thorough):
@@ -286,7 +289,7 @@ def _job_uf(exe, d, thorough):
         for job, cs in ex.map(gen, plan):
             jobs.append(job)
             cases += cs
-    if not any(c["init"] for c in cases) or not any(-1 in c["rets"] for c in cases):
+    if not any(c["init"] for c in cases) or not (os.environ.get("VERIF_UF_FIXED") == "1" or any(-1 in c["rets"] for c in cases)):
         raise vlib.ToolError("vacuous: no malformed / diverging union-find behaviour was generated")
     casefile = os.path.join(d, "uf_cases.ndjson")
     vlib.write_ndjson(casefile, cases)
@@ -394,6 +397,8 @@ def run(tier):
     tlc_bad = set()
     for line, gi, rule in viol:
         suffix = "/" + rule.split("|", 1)[1].split("/", 1)[1]
+        if suffix.startswith("/is_top/"):      # incl. the regression class withtop/is_top/some-inner-top
+            suffix = "/is_top/result"
         if suffix in XCHECK.values():
             tlc_bad.add((line, gi, suffix))
     if rust_bad != tlc_bad:
